@@ -2,6 +2,7 @@
 #define MAIN_H
 
 #include <stdio.h>
+#include <stdlib.h>
 #include <string.h>
 #include <assert.h>
 #include "utf8_decode.h"
@@ -44,71 +45,53 @@ sanitize (const char *str, size_t length)
 const char *
 sanitize_utf8 (const char *text, size_t length)
 {
-#define TEXT_SIZE 2048
+    static char *sanitized = NULL;  /* grows on demand, reused between calls */
+    static size_t capacity = 0;
+    size_t need = length * 4 + 1;   /* a byte becomes at most "0xNN" */
+    size_t base = 0;                /* where the decoder was (re)started */
+    size_t pos = 0;                 /* position in sanitized array */
 
-    int c1 = 0, c2 = 0; /* characters */
-    int p1 = 0, p2 = 0; /* byte position of characters */
-    int pos = 0;        /* position in sanitized array */
-    static char sanitized[TEXT_SIZE];
-    char buf[32];
 
+    if (need > capacity) {
+        char *grown = realloc (sanitized, need);
+
+        if (grown == NULL)
+            return "";
+
+        sanitized = grown;
+        capacity = need;
+    }
 
 /* html data contain some unneccessary characters:
  * 1) such characters as '&lrm;' and '&rlm;' broke encoding to punycode;
  * 2) we don't want any '\r', '\n' characters in the output CSV file.
  */
-#define SKIP(c, p, l) do { \
-    if ((c) < 0x0020 || (c) == 0x007f) { \
-        sprintf (buf, "0x%02x", c); \
-        size_t x = strlen (buf); \
-        memcpy (sanitized + pos, buf, x); \
-        pos += x; \
-    } \
-    else { \
-        assert (pos < TEXT_SIZE); \
-        memcpy (sanitized + pos, text + p, l); \
-        pos += l; \
-    } \
-} while (0)
-
-
     utf8_decode_init ((char *) text, length);
-    /* look forward for characters and their lengths.
-     * Such way (may be ugly) helps us avoid creation of utf8_encode() func.
-     */
+
     for (;;) {
-        c1 = utf8_decode_next ();
-        p1 = utf8_decode_at_byte ();
+        int c = utf8_decode_next ();
+        size_t p = base + utf8_decode_at_byte ();
 
-        if (c1 < 0) {
-            if (c2 > 0) { /* it is possible that we miss something */
-                /* at p2, length: len - p2 */
-                SKIP(c2, p2, length - p2);
-            }
+        if (c == UTF8_END)
             break;
+
+        if (c < 0) {
+            /* ill-formed UTF-8: show the byte and resynchronise after it */
+            pos += sprintf (sanitized + pos, "0x%02x", (unsigned char) text[p]);
+            base = p + 1;
+            utf8_decode_init ((char *) text + base, length - base);
         }
-
-        if (p2 > 0) { /* previous character */
-            /* at p2, length: p1 - p2 */
-            SKIP(c2, p2, p1 - p2);
-        }
-
-        /* look forward */
-        c2 = utf8_decode_next ();
-        p2 = utf8_decode_at_byte ();
-
-        if (c2 > 0) {
-            /* at p1, length: p2 - p1 */
-            SKIP(c1, p1, p2 - p1);
+        else if (c < 0x0020 || c == 0x007f) {
+            pos += sprintf (sanitized + pos, "0x%02x", c);
         }
         else {
-            /* it possible that we read everything; does not work always. */
-            /* at p1, length: len - p1 */
-            SKIP(c1, p1, length - p1);
+            size_t l = c < 0x80 ? 1 : c < 0x800 ? 2 : c < 0x10000 ? 3 : 4;
+
+            memcpy (sanitized + pos, text + p, l);
+            pos += l;
         }
     }
 
-    assert (c1 == UTF8_END);
     sanitized[pos] = '\0';
 
     return sanitized;
